@@ -417,7 +417,8 @@ def eos(ctx, rule):
   for a in apps:
     lpn = [x for x in g.live_nodes() if x.kind in ('test', 'for') and a.loops and (x.ast is a.loops[-1] or x.ast is getattr(a.loops[-1], 'test', None))]
     for l in lpn:
-      if witness(g, a.id, [l.id], avoid=[e.id for e in exps]) is not None:
+      # within one iteration the check may come before or after the member is recorded
+      if witness(g, a.id, [l.id], avoid=[e.id for e in exps]) is not None and witness(g, l.id, [a.id], avoid=[e.id for e in exps]) is not None:
         ok = False
   ctx.check(ok, rule, construct(bb), 'each block member must be followed by NEWLINE before the next member is read',
             'a block member is accepted without a terminating NEWLINE check', bb.loc(), instance='block-member')
